@@ -281,6 +281,29 @@ func cmdCheck(args []string) int {
 		validated = runReplays(prop, *tier, work, replayDir, byFn, order, l)
 	}
 
+	// ---- SQL model validation: harnesses that run SQLiteStore on the interpreted SQL model are only
+	// as good as the model; the same store code is run natively on real SQLite and on the model ----
+	sqlModelNote := ""
+	if !*noNative {
+		var users []string
+		for _, fn := range order {
+			if b, err := os.ReadFile(byFn[fn].H.File); err == nil && harnessUsesSQLModel(string(b), fn) {
+				users = append(users, fn)
+			}
+		}
+		if len(users) > 0 {
+			note, err := validateSQLModel(*tier, seed, work)
+			sqlModelNote = note
+			if err != nil {
+				for _, fn := range users {
+					byFn[fn].Problems = append(byFn[fn].Problems, "SQL model not validated against real SQLite: "+err.Error())
+				}
+			} else {
+				validated++
+			}
+		}
+	}
+
 	// ---- verdict ----
 	exit := 0
 	violations := 0
@@ -348,6 +371,10 @@ func cmdCheck(args []string) int {
 	}
 	for _, l := range lines {
 		fmt.Println(l)
+	}
+	if sqlModelNote != "" {
+		fmt.Println(sqlModelNote)
+		lines = append(lines, sqlModelNote)
 	}
 	wall := time.Since(t0).Seconds()
 	if *only == "" && !*noNative {
